@@ -143,7 +143,7 @@ def correspond(ctx):
                     elif mode == "both":
                         cx, cy = rng.randint(1, 10**6), rng.randint(1, 10**6)
                     elif mode == "zero":
-                        cx, cy = 0, rng.choice([0, None, 5000])
+                        cx, cy = rng.choice([(0, None), (0, 0), (0, 5000), (1777, 0), (None, 0)])
                     pic = slide.shapes.add_picture(src, 10, 20, cx, cy)
                     fmt_, (pw, ph_), dpi = pil_props(blob)
                     hd, vd = (int_dpi_oracle(dpi[0]), int_dpi_oracle(dpi[1])) if isinstance(dpi, tuple) else (72, 72)
@@ -158,6 +158,9 @@ def correspond(ctx):
                                 pass
                     add(f"c15.scale {nw} {nh} {'none' if cx is None else cx} {'none' if cy is None else cy}", f"{pic.width} {pic.height}", ("scale", mode, bid))
                     ctx.count("size-mode-" + mode); ctx.count("dpi-" + dk)
+                    # L2: a dimension that was given is the dimension the picture has (0 is a size, None is "not given")
+                    if (cx is not None and pic.width != cx) or (cy is not None and pic.height != cy):
+                        ctx.fail("given-size", f"add_picture(..., width={cx}, height={cy}) gave a picture of {pic.width}x{pic.height} EMU", {"fmt": fmt, "cx": cx, "cy": cy})
                     # L2: native size / aspect
                     if mode == "none" and (pic.width, pic.height) != (nw, nh):
                         ctx.fail("native-size", f"{fmt} {pw}x{ph_}px dpi={dpi}: picture is {pic.width}x{pic.height} EMU, native size is {nw}x{nh}", {"fmt": fmt, "px": (pw, ph_), "dpi": str(dpi)})
